@@ -202,7 +202,13 @@ func (t *Transaction) initializeCache() error {
 	}
 	var err error
 	t.Cache, err = cache.NewTableCache(t.Model, nil, t.logger)
-	return err
+	if err != nil {
+		return err
+	}
+	// a transaction may hold duplicate index values until a later operation
+	// or the final index check deals with them
+	t.Cache.KeepDuplicates()
+	return nil
 }
 
 func (t *Transaction) rowsFromTransactionCacheAndDatabase(table string, where []ovsdb.Condition) (map[string]model.Model, error) {
